@@ -155,7 +155,22 @@ def into_inner(eng, st, fr, args, fn, site):
     return T('into_inner', args[0])
 
 
+def discr_test(variant_index):
+    """Option::is_some / is_none, Result::is_ok / is_err as a test of the discriminant"""
+    def f(eng, st, fr, args, fn, site):
+        v = deref(eng, st, args[0])
+        d = eng.discr_of(fr.body.crate, v)
+        if is_int_const(d):
+            return C(int(d[1] == variant_index), 'bool')
+        return T('Eq', d, C(variant_index, 'isize'))
+    return f
+
+
 SUMMARIES = {
+    'std::option::Option::<T>::is_some': discr_test(1),
+    'std::option::Option::<T>::is_none': discr_test(0),
+    'std::result::Result::<T, E>::is_ok': discr_test(0),
+    'std::result::Result::<T, E>::is_err': discr_test(1),
     'std::cmp::PartialOrd::lt': cmp_op('lt'),
     'std::cmp::PartialOrd::le': cmp_op('le'),
     'std::cmp::PartialOrd::gt': cmp_op('gt'),
